@@ -10,13 +10,14 @@ use fuel_tx::{
     ConsensusParameters, ContractIdExt, FeeParameters, GasCosts, GasCostsValues, Input, Output, Receipt, Script,
     TransactionBuilder, TransactionFee, TxPointer, UtxoId, Finalizable,
 };
-use fuel_types::{Address, AssetId, BlockHeight, Bytes32, ContractId, Nonce, SubAssetId};
+use fuel_types::{Address, AssetId, BlobId, BlockHeight, Bytes32, ContractId, Nonce, SubAssetId};
 use fuel_vm::{
     checked_transaction::{Checked, IntoChecked, Ready},
     interpreter::{InterpreterParams, MemoryInstance},
     prelude::{Interpreter, InterpreterStorage, MemoryStorage, ProgramState, SecretKey},
-    storage::ContractsAssetsStorage,
+    storage::{BlobData, ContractsAssetsStorage},
 };
+use fuel_storage::StorageAsMut;
 
 pub type Vm = Interpreter<MemoryInstance, MemoryStorage, Script>;
 
@@ -40,6 +41,8 @@ pub fn contract_id(i: usize) -> ContractId {
     ContractId::new(b)
 }
 pub fn address(i: usize) -> Address { Address::new([0xAD + i as u8; 32]) }
+/// blobs present in storage: their ids are the two pool addresses (`OFF_ADDR`); a sub id (`OFF_SUB`) serves as a missing blob
+pub fn blob_id(i: usize) -> BlobId { BlobId::new(*address(i)) }
 pub fn sub_id(i: usize) -> SubAssetId { if i == 0 { SubAssetId::new([0; 32]) } else { SubAssetId::new([7; 32]) } }
 
 pub fn pool(base: &AssetId) -> Vec<u8> {
@@ -78,6 +81,8 @@ pub struct ProgGen<'a> {
     pub safe: bool,
     pub tro_used: usize,
     pub in_loop: bool,
+    /// byte lengths at which the schedule's dependent costs step (k * units_per_gas - 1 / +0 / +1, small multiples)
+    pub hints: Vec<u32>,
 }
 
 const R: [u8; 8] = [0x10, 0x11, 0x12, 0x13, 0x14, 0x15, 0x16, 0x17];
@@ -154,17 +159,28 @@ impl<'a> ProgGen<'a> {
         }
     }
 
+    /// a byte length: fixed boundary values, or one where this scenario's schedule steps
+    fn len_choice(&mut self, cap: u32) -> u32 {
+        let l = if !self.hints.is_empty() && self.rng.chance(1, 3) { *self.rng.pick(&self.hints) }
+            else { *self.rng.pick(&[0u32, 1, 7, 8, 9, 32, 63, 64, 213, 214, 215, 428, 1000, 3333, 4000]) };
+        l.min(cap)
+    }
+
     fn mem(&mut self) {
         self.kinds.push("mem");
-        let len = *self.rng.pick(&[0u32, 1, 7, 8, 9, 32, 63, 64, 213, 214, 215, 428, 1000, 3333, 4000]);
+        let len = self.len_choice(20_000);
         match self.rng.below(9) {
             0 => { self.heap(len); }
             1 => { self.heap(len.max(8)); self.code.push(op::mcli(RegId::HP, len.min(0x3ffff))); }
             2 => { let l = len.min(POOL_LEN as u32); self.heap(l.max(8)); self.code.push(op::mcpi(RegId::HP, RP, l as u16)); }
-            3 => { let l = len.min(POOL_LEN as u32); self.heap(l.max(8)); let r = self.r(); self.code.push(op::movi(r, l)); self.code.push(op::mcp(RegId::HP, RP, r)); }
+            3 => { let r = self.r(); if len <= POOL_LEN as u32 { self.heap(len.max(8)); self.code.push(op::movi(r, len)); self.code.push(op::mcp(RegId::HP, RP, r)); }
+                   else { self.heap(len); self.code.push(op::move_(0x1d, RegId::HP)); self.heap(len); self.code.push(op::movi(r, len)); self.code.push(op::mcp(RegId::HP, 0x1d, r)); } }
             4 => { let n = (len & 0xff8).min(2048); self.code.push(op::cfei(n)); self.code.push(op::cfsi(n)); }
-            5 => { let r = self.r(); let l = len.min(POOL_LEN as u32); self.heap(l.max(8)); self.code.push(op::movi(r, l)); let d = self.r(); self.code.push(op::meq(d, RegId::HP, RP, r)); }
-            6 => { self.heap(32); let r = self.r(); let l = len.min(POOL_LEN as u32); self.code.push(op::movi(r, l)); self.code.push(if self.rng.chance(1, 2) { op::s256(RegId::HP, RP, r) } else { op::k256(RegId::HP, RP, r) }); }
+            5 => { let r = self.r(); let d = self.r(); if len <= POOL_LEN as u32 { self.heap(len.max(8)); self.code.push(op::movi(r, len)); self.code.push(op::meq(d, RegId::HP, RP, r)); }
+                   else { self.heap(len); self.code.push(op::move_(0x1d, RegId::HP)); self.heap(len); self.code.push(op::movi(r, len)); self.code.push(op::meq(d, RegId::HP, 0x1d, r)); } }
+            6 => { let r = self.r(); let hash = |a: u8, b: u8, c: u8, k: bool| if k { op::s256(a, b, c) } else { op::k256(a, b, c) }; let k = self.rng.chance(1, 2);
+                   if len <= POOL_LEN as u32 { self.heap(32); self.code.push(op::movi(r, len)); self.code.push(hash(RegId::HP.to_u8(), RP, r, k)); }
+                   else { self.heap(len); self.code.push(op::move_(0x1d, RegId::HP)); self.heap(32); self.code.push(op::movi(r, len)); self.code.push(hash(RegId::HP.to_u8(), 0x1d, r, k)); } }
             7 => { let r = self.r(); self.code.push(op::movi(r, len)); self.code.push(op::cfe(r)); self.code.push(op::cfs(r)); }
             _ => { self.heap(len.max(8)); let r = self.r(); self.code.push(op::movi(r, len)); self.code.push(op::mcl(RegId::HP, r)); }
         }
@@ -178,7 +194,8 @@ impl<'a> ProgGen<'a> {
         } else {
             let (p, l) = (0x19, 0x1a);
             self.ptr(p, OFF_MISC);
-            let len = *self.rng.pick(&[0u32, 1, 8, 33, 63, 64]);
+            let len = if self.focus == Focus::Gas && self.rng.chance(1, 3) { self.len_choice(3000) } else { *self.rng.pick(&[0u32, 1, 8, 33, 63, 64]) };
+            if len > 64 { self.heap(len); self.code.push(op::move_(p, RegId::HP)); }
             self.code.push(op::movi(l, len));
             self.code.push(op::logd(RegId::ZERO, RegId::ONE, p, l));
         }
@@ -246,35 +263,86 @@ impl<'a> ProgGen<'a> {
         self.code.push(op::call(pa, am, pb, g));
     }
 
+    /// slot key built on the heap: one of the clustered keys 0..=7 (ranges of neighbouring instructions overlap, so hot and
+    /// cold slots mix), a pool key, or rarely a key just below 2^256 (a range running over the end must panic)
+    fn slot_key(&mut self, pk: u8) {
+        match self.rng.below(if self.safe { 10 } else { 12 }) {
+            0 | 1 => { let k = self.rng.below(2) as u16; self.ptr(pk, OFF_SUB + 32 * k); }
+            11 => {
+                self.heap(32); self.code.push(op::not(0x1d, RegId::ZERO));
+                for w in 0..4 { self.code.push(op::sw(RegId::HP, 0x1d, w)); }
+                self.code.push(op::movi(0x1d, 0xfc + self.rng.below(4) as u32)); self.code.push(op::sb(RegId::HP, 0x1d, 31));
+                self.code.push(op::move_(pk, RegId::HP));
+            }
+            _ => { self.heap(32); self.code.push(op::movi(0x1d, self.rng.below(8) as u32)); self.code.push(op::sb(RegId::HP, 0x1d, 31)); self.code.push(op::move_(pk, RegId::HP)); }
+        }
+    }
+
     fn storage(&mut self) {
         if !self.is_contract && (self.safe || !self.rng.chance(1, 25)) { return self.alu(); }
         self.kinds.push("storage");
-        let (pk, v, fl) = (0x19, 0x1a, 0x1b);
-        let key = self.rng.below(2) as u16;
-        self.ptr(pk, OFF_SUB + 32 * key);
-        match self.rng.below(6) {
-            0 | 1 => { let val = self.rng.word(); self.load(v, val); self.code.push(op::sww(pk, fl, v)); }
-            2 => { self.code.push(op::srw(v, fl, pk, 0)); }
-            3 => { self.heap(64); self.code.push(op::movi(v, 1 + self.rng.below(2) as u32)); self.code.push(op::srwq(RegId::HP, fl, pk, v)); }
-            4 => { self.ptr(v, OFF_MISC); self.code.push(op::movi(0x1c, 1 + self.rng.below(2) as u32)); self.code.push(op::swwq(pk, fl, v, 0x1c)); }
-            _ => { self.code.push(op::movi(v, self.rng.below(3) as u32)); self.code.push(op::scwq(pk, fl, v)); }
+        let (pk, v, fl, x) = (0x19, 0x1a, 0x1b, 0x1c);
+        let legacy = self.focus != Focus::Gas;
+        match self.rng.below(if legacy { 6 } else { 20 }) {
+            0 | 1 => { self.slot_key(pk); let val = self.rng.word(); self.load(v, val); self.code.push(op::sww(pk, fl, v)); }
+            2 => { self.slot_key(pk); let off = if self.rng.chance(1, 4) { self.rng.below(6) as u8 } else { 0 }; self.code.push(op::srw(v, fl, pk, off)); }
+            3 => { let n = 1 + self.rng.below(4) as u32; self.heap(32 * n); self.code.push(op::move_(v, RegId::HP)); self.slot_key(pk); self.code.push(op::movi(x, n)); self.code.push(op::srwq(v, fl, pk, x)); }
+            4 => { let n = 1 + self.rng.below(4) as u32; if n <= 2 { self.ptr(v, OFF_MISC); } else { self.heap(32 * n); self.code.push(op::move_(v, RegId::HP)); } self.slot_key(pk); self.code.push(op::movi(x, n)); self.code.push(op::swwq(pk, fl, v, x)); }
+            5 => { self.slot_key(pk); self.code.push(op::movi(v, self.rng.below(5) as u32)); self.code.push(op::scwq(pk, fl, v)); }
+            6 | 7 => { self.slot_key(pk); self.code.push(op::movi(v, self.rng.below(6) as u32)); self.code.push(op::sclr(pk, v)); }
+            8 | 9 => {
+                // SRDD / SRDI: offset + len inside, at the end of, or beyond typical slot lengths
+                let len = *self.rng.pick(&[0u32, 1, 8, 31, 32, 33, 63]); let off = *self.rng.pick(&[0u32, 0, 0, 1, 8, 32, 100]);
+                self.heap(len.max(8)); self.code.push(op::move_(v, RegId::HP)); self.slot_key(pk); self.code.push(op::movi(fl, off));
+                if self.rng.chance(1, 2) { self.code.push(op::movi(x, len)); self.code.push(op::srdd(v, pk, fl, x)); } else { self.code.push(op::srdi(v, pk, fl, len as u8)); }
+            }
+            10 | 11 | 12 => {
+                // SWRD / SWRI: new slot lengths of every residue, shrinking and growing values
+                let len = if self.rng.chance(1, 2) { self.len_choice(2500) } else { self.rng.range(0, 70) as u32 };
+                self.heap(len.max(8)); self.code.push(op::move_(v, RegId::HP)); self.slot_key(pk);
+                if len < 4096 && self.rng.chance(1, 2) { self.code.push(op::swri(pk, v, len as u16)); } else { self.code.push(op::movi(x, len)); self.code.push(op::swrd(pk, v, x)); }
+            }
+            13 | 14 | 15 => {
+                // SUPD / SUPI: overwrite inside, extend, append (offset = u64::MAX), or start beyond the end (panics)
+                let len = *self.rng.pick(&[0u32, 1, 7, 8, 9, 32, 40, 63]);
+                self.heap(len.max(8)); self.code.push(op::move_(v, RegId::HP)); self.slot_key(pk);
+                match self.rng.below(5) { 0 => self.code.push(op::not(fl, RegId::ZERO)), 1 => self.code.push(op::movi(fl, 5000)), _ => { let o = *self.rng.pick(&[0u32, 0, 1, 8, 30, 32]); self.code.push(op::movi(fl, o)) } }
+                if self.rng.chance(1, 2) { self.code.push(op::movi(x, len)); self.code.push(op::supd(pk, v, fl, x)); } else { self.code.push(op::supi(pk, v, fl, len as u8)); }
+            }
+            _ => { self.slot_key(pk); let r = self.r(); self.code.push(op::spld(r, pk)); }
         }
     }
 
     fn info(&mut self) {
-        if self.safe && self.n_contracts == 0 { return self.alu(); }
+        if self.safe && self.n_contracts == 0 && self.focus != Focus::Gas { return self.alu(); }
         self.kinds.push("info");
-        let (pa, x) = (0x19, 0x1a);
+        let (pa, x, y) = (0x19, 0x1a, 0x1b);
         let c = self.contract_idx(true);
         self.ptr(pa, OFF_CONTRACT + 32 * c);
-        match self.rng.below(7) {
+        match self.rng.below(if self.focus == Focus::Gas { 13 } else { 7 }) {
             0 => { let r = self.r(); self.code.push(op::csiz(r, pa)); }
             1 => { self.heap(32); self.code.push(op::croo(RegId::HP, pa)); }
-            2 => { let l = *self.rng.pick(&[0u32, 8, 100, 700, 2000]); self.heap(l.max(8)); self.code.push(op::movi(x, l)); self.code.push(op::ccp(RegId::HP, pa, RegId::ZERO, x)); }
+            2 => { let l = if self.rng.chance(1, 2) { self.len_choice(6000) } else { *self.rng.pick(&[0u32, 8, 100, 700, 2000]) }; self.heap(l.max(8)); self.code.push(op::movi(x, l)); self.code.push(op::ccp(RegId::HP, pa, RegId::ZERO, x)); }
             3 => { let r = self.r(); self.code.push(op::bhei(r)); }
             4 => { let r = self.r(); if !self.safe && self.rng.chance(1, 6) { self.code.push(op::bsiz(r, pa)); } else { self.code.push(op::bhei(r)); } }
             5 => { let r = self.r(); self.code.push(op::gm_args(r, fuel_asm::GMArgs::GetChainId)); }
-            _ => { let r = self.r(); self.code.push(op::gtf_args(r, RegId::ZERO, fuel_asm::GTFArgs::ScriptGasLimit)); }
+            6 => { let r = self.r(); self.code.push(op::gtf_args(r, RegId::ZERO, fuel_asm::GTFArgs::ScriptGasLimit)); }
+            7 | 8 => {
+                // BSIZ / BLDD on the blobs in storage (ids = the pool addresses), rarely a missing one
+                let b = if !self.safe && self.rng.chance(1, 12) { OFF_SUB } else { OFF_ADDR + 32 * self.rng.below(2) as u16 };
+                self.ptr(pa, b);
+                if self.rng.chance(1, 3) { let r = self.r(); self.code.push(op::bsiz(r, pa)); }
+                else { let l = self.len_choice(4000); self.heap(l.max(8)); self.code.push(op::movi(x, l)); self.code.push(op::movi(y, self.rng.below(9) as u32)); self.code.push(op::bldd(RegId::HP, pa, y, x)); }
+            }
+            _ => {
+                // LDC: contract / blob / memory source, length of every residue mod 8 (it is padded before charging).
+                // `$ssp == $sp` is required: emitted only while the generator has not moved `$sp` in this program.
+                let mode = self.rng.below(if self.safe { 3 } else { 4 }) as u8;
+                let l = match self.rng.below(4) { 0 => self.len_choice(3000), 1 => 0, _ => self.rng.range(1, 90) as u32 };
+                match mode { 1 => { let b = if !self.safe && self.rng.chance(1, 12) { OFF_SUB } else { OFF_ADDR + 32 * self.rng.below(2) as u16 }; self.ptr(pa, b); } 2 => { self.code.push(op::move_(pa, RP)); } _ => {} }
+                self.code.push(op::movi(x, l)); self.code.push(op::movi(y, if mode == 2 { 0 } else { self.rng.below(9) as u32 }));
+                self.code.push(op::ldc(pa, y, x, mode));
+            }
         }
     }
 
@@ -344,7 +412,8 @@ impl<'a> ProgGen<'a> {
 // scenario
 
 #[derive(Clone)]
-pub struct Ctr { pub id: ContractId, pub code: Vec<u8>, pub balances: Vec<(AssetId, u64)>, pub as_input: bool }
+pub struct Ctr { pub id: ContractId, pub code: Vec<u8>, pub balances: Vec<(AssetId, u64)>, pub as_input: bool, /// filler bytes after the data pool
+    pub tail: usize }
 
 #[derive(Clone)]
 pub struct Scn {
@@ -362,17 +431,55 @@ pub struct Scn {
     pub coin_outs: Vec<(AssetId, u64)>,
     pub n_var: usize,
     pub kinds: Vec<&'static str>,
+    /// blobs in storage (BSIZ / BLDD / LDC mode 1)
+    pub blobs: Vec<(BlobId, Vec<u8>)>,
+}
+
+/// `DependentCost` of a schedule entry as (is_light, per) — read through the public getters the VM itself uses
+fn dep_parts(d: fuel_tx::DependentCost) -> (bool, u64) {
+    match d { fuel_tx::DependentCost::LightOperation { units_per_gas, .. } => (true, units_per_gas), fuel_tx::DependentCost::HeavyOperation { gas_per_unit, .. } => (false, gas_per_unit) }
+}
+
+/// lengths around the points where a light dependent cost of this schedule steps (k * units_per_gas - 1, +0, +1)
+fn schedule_hints(costs: &GasCostsValues) -> Vec<u32> {
+    let mut h = vec![];
+    let mut deps = vec![costs.mcl(), costs.mcp(), costs.meq(), costs.s256(), costs.k256(), costs.logd(), costs.retd(), costs.ccp(), costs.ldc(), costs.call(), costs.smo(), costs.mcli(), costs.mcpi(), costs.csiz(), costs.croo()];
+    for d in [costs.bldd(), costs.bsiz(), costs.storage_write(), costs.storage_read_cold(), costs.storage_read_hot()] { if let Ok(d) = d { deps.push(d); } }
+    for d in deps {
+        if let (true, u) = dep_parts(d) {
+            if u >= 2 && u <= 6000 { for k in [1u64, 2, 3, 7] { let m = k * u; if m <= 20_000 { h.push((m - 1) as u32); h.push(m as u32); h.push((m + 1) as u32); } } }
+        }
+    }
+    h.sort(); h.dedup();
+    h
+}
+
+/// Extra bytes appended after a contract's data pool so that the code length takes every residue modulo 8 and,
+/// where the schedule's CALL / LDC / CCP cost is a light operation, so that the 1-7 padding bytes CALL adds move the
+/// padded length across a multiple of `units_per_gas` (padded and unpadded lengths then resolve to different costs).
+fn code_tail(rng: &mut Rng, len: usize, costs: &GasCostsValues) -> usize {
+    let r = rng.below(8) as usize;
+    let (light, u) = dep_parts(costs.call());
+    if light && u >= 2 && u <= 5000 && rng.chance(1, 2) {
+        let u = u as usize;
+        for f in 0..(u + 16) {
+            let l = len + f;
+            if l % 8 != 0 && l / u != (l + (8 - l % 8)) / u { return f; }
+        }
+    }
+    // make the residue of the final length `r`
+    (r + 8 - len % 8) % 8
 }
 
 pub fn schedule(rng: &mut Rng, fixed_n: usize, dep_n: usize, make: &dyn Fn(&[u64], &[fuel_tx::DependentCost]) -> GasCostsValues) -> (GasCostsValues, &'static str) {
     match rng.below(10) {
-        0..=4 => (GasCostsValues::default(), "default"),
-        5 | 6 => (GasCostsValues::unit(), "unit"),
+        0..=3 => (GasCostsValues::default(), "default"),
+        4 | 5 => (GasCostsValues::unit(), "unit"),
         _ => {
             let f: Vec<u64> = (0..fixed_n).map(|_| match rng.below(12) { 0 => 0, 1 => rng.range(100, 5000), 2 => 1 << rng.range(20, 40), _ => rng.range(1, 20) }).collect();
             let d: Vec<fuel_tx::DependentCost> = (0..dep_n).map(|_| {
                 let base = match rng.below(8) { 0 => 0, 1 => rng.range(100, 3000), _ => rng.range(1, 40) };
-                if rng.chance(1, 2) { fuel_tx::DependentCost::LightOperation { base, units_per_gas: match rng.below(6) { 0 => 1, 1 => u64::MAX, _ => rng.range(1, 4000) } } }
+                if rng.chance(1, 2) { fuel_tx::DependentCost::LightOperation { base, units_per_gas: match rng.below(8) { 0 => 1, 1 => u64::MAX, 2 | 3 => rng.range(2, 9), _ => rng.range(1, 4000) } } }
                 else { fuel_tx::DependentCost::HeavyOperation { base, gas_per_unit: match rng.below(6) { 0 => 0, 1 => 1 << rng.range(30, 63), _ => rng.range(1, 30) } } }
             }).collect();
             (make(&f, &d), "random")
@@ -389,21 +496,24 @@ pub fn gen_scenario(rng: &mut Rng, focus: Focus, costs: GasCostsValues) -> Scn {
     let n_contracts = if rng.chance(1, 8) { 0 } else { rng.range(1, 3) as usize };
     let n_var = rng.below(9) as usize;
     let safe = rng.chance(match focus { Focus::Gas => 1, Focus::Ledger => 3, Focus::Outcome => 2 }, 4);
+    let hints = if focus == Focus::Gas { schedule_hints(params.gas_costs()) } else { vec![] };
     let mut kinds = vec![];
     if safe { kinds.push("safe-scenario"); }
     let mut contracts = vec![];
     for i in 0..n_contracts {
-        let mut g = ProgGen { rng, code: vec![], is_contract: true, self_idx: i, n_contracts, n_var_outputs: n_var, focus, kinds: vec![], raw: vec![], safe, tro_used: 0, in_loop: false };
+        let mut g = ProgGen { rng, code: vec![], is_contract: true, self_idx: i, n_contracts, n_var_outputs: n_var, focus, kinds: vec![], raw: vec![], safe, tro_used: 0, in_loop: false, hints: hints.clone() };
         let nb = g.rng.range(1, 20);
-        let code = g.program(nb, &base);
+        let mut code = g.program(nb, &base);
         kinds.extend(g.kinds.iter().map(|k| *k));
+        let tail = if focus == Focus::Gas { code_tail(rng, code.len(), params.gas_costs()) } else { 0 };
+        code.extend(std::iter::repeat(0u8).take(tail));
         let mut balances = vec![];
         for a in 0..3 { if rng.chance(5, 6) { balances.push((asset(a, &base), match rng.below(12) { 0 => 0, 1 => u64::MAX - rng.below(3), _ => rng.range(1, 5000) })); } }
         if rng.chance(1, 3) { balances.push((contract_id(i).asset_id(&sub_id(0)), rng.range(0, 100))); }
         if safe { balances = (0..3).map(|a| (asset(a, &base), rng.range(100_000, 200_000))).collect(); balances.push((contract_id(i).asset_id(&sub_id(0)), 1_000_000)); balances.push((contract_id(i).asset_id(&sub_id(1)), 1_000_000)); }
-        contracts.push(Ctr { id: contract_id(i), code, balances, as_input: safe || !rng.chance(1, 25) });
+        contracts.push(Ctr { id: contract_id(i), code, balances, as_input: safe || !rng.chance(1, 25), tail });
     }
-    let mut g = ProgGen { rng, code: vec![], is_contract: false, self_idx: 0, n_contracts, n_var_outputs: n_var, focus, kinds: vec![], raw: vec![], safe, tro_used: 0, in_loop: false };
+    let mut g = ProgGen { rng, code: vec![], is_contract: false, self_idx: 0, n_contracts, n_var_outputs: n_var, focus, kinds: vec![], raw: vec![], safe, tro_used: 0, in_loop: false, hints: hints.clone() };
     let nb = g.rng.range(3, 40);
     let script = if g.rng.chance(1, 40) { vec![] } else { g.program(nb, &base) };
     kinds.extend(g.kinds.iter().map(|k| *k));
@@ -424,9 +534,12 @@ pub fn gen_scenario(rng: &mut Rng, focus: Focus, costs: GasCostsValues) -> Scn {
     let gas_limit = if safe { rng.range(200_000, 3_000_000) } else { match rng.below(6) { 0 => rng.range(0, 300), 1 => rng.range(300, 5000), _ => rng.range(20_000, 3_000_000) } };
     let var_base = change.len() + coin_outs.len() + contracts.iter().filter(|c| c.as_input).count();
     let mut script = script;
-    patch_var_index(&mut script, var_base);
-    for c in contracts.iter_mut() { patch_var_index(&mut c.code, var_base); }
-    Scn { params, gas_price, gas_limit, fee_extra: if rng.chance(1, 3) { 0 } else { rng.range(0, 3000) }, tip: if rng.chance(1, 5) { rng.range(1, 20) } else { 0 }, script, script_data: vec![], contracts, coins, msgs, change, coin_outs, n_var, kinds }
+    patch_var_index(&mut script, var_base, 0);
+    for c in contracts.iter_mut() { let t = c.tail; patch_var_index(&mut c.code, var_base, t); }
+    let blobs = if focus == Focus::Gas {
+        (0..2).map(|i| { let l = match rng.below(4) { 0 => rng.below(16), 1 => rng.range(16, 300), 2 => *rng.pick(&hints.iter().map(|x| *x as u64).chain([640u64]).collect::<Vec<_>>()), _ => rng.range(300, 3000) } as usize; (blob_id(i), rng.bytes(l)) }).collect()
+    } else { vec![] };
+    Scn { blobs, params, gas_price, gas_limit, fee_extra: if rng.chance(1, 3) { 0 } else { rng.range(0, 3000) }, tip: if rng.chance(1, 5) { rng.range(1, 20) } else { 0 }, script, script_data: vec![], contracts, coins, msgs, change, coin_outs, n_var, kinds }
 }
 
 pub struct Built { pub ready: Ready<Script>, pub checked_again: Checked<Script>, pub storage: MemoryStorage, pub max_fee: u64, pub var_base: usize }
@@ -438,6 +551,7 @@ pub fn make_storage(s: &Scn) -> MemoryStorage {
         st.storage_contract_insert(&c.id, c.code.as_slice()).unwrap();
         for (a, v) in &c.balances { st.contract_asset_id_balance_insert(&c.id, a, *v).unwrap(); }
     }
+    for (id, data) in &s.blobs { st.storage_as_mut::<BlobData>().insert(id, data.as_slice()).unwrap(); }
     st.commit();
     st
 }
@@ -484,9 +598,9 @@ pub fn build(s: &Scn) -> Result<Built, String> {
 
 /// TRO output indices in generated programs are `100 + k`; rewrite them to the real variable-output
 /// positions once the output list is known (keeps the generator independent of the output layout)
-pub fn patch_var_index(code: &mut Vec<u8>, var_base: usize) {
+pub fn patch_var_index(code: &mut Vec<u8>, var_base: usize, tail: usize) {
     // `movi x(0x1c), 100+k` directly precedes `tro` in `asset_op`; find `tro` words and fix the preceding movi
-    let n = code.len().saturating_sub(POOL_LEN) / 4;
+    let n = code.len().saturating_sub(POOL_LEN + tail) / 4;
     for i in 1..n {
         let w = u32::from_be_bytes(code[4 * i..4 * i + 4].try_into().unwrap());
         if (w >> 24) as u8 == fuel_asm::Opcode::TRO as u8 {
